@@ -437,3 +437,62 @@ Theorem C02_broadcast_pointwise_restricts_to_pwn :
   forall (A : Type) (F : list A -> A) (vs : list (tensor A)), operands_ok vs -> bcast_ok vs /\ teq (pwg F vs) (pwn F vs).
 Proof. exact @pwg_restricts. Qed.
 Print Assumptions C02_broadcast_pointwise_restricts_to_pwn.
+
+(* ---- THE PIPELINE: optimize_graph runs _OPTIMIZER_PASSES in a fixed order on the top graph and then every function-scoped
+        pass on every function body.  theories/OptimizePipeline.v composes the verified pass models IN THE ORDER OF THE TABLE
+        TRANSLATED FROM THE SOURCE (gen/GenOptPasses.v: label, function that runs, runs on function bodies?; labels =
+        GenOpt.OPTIMIZER_PASS_NAMES) on one common annotated graph [ograph] (declared dtypes / dims, constant payloads with
+        their one-element test and rank), each model working on its own view of it.  For every graph admissible WHEN
+        OPTIMISATION STARTS ([padm]: SSA, declared dims true of every successful run, the constant payloads the passes resolve
+        belong to names the environment defines and are true of it) the pipeline refines the graph; the final environment is
+        the given one plus the initializers the passes created ([pext]).
+        What is discharged: remove_redundant_transpose_reduce_ir, ..._transpose_add_forests_ir, ..._transpose_pairs_ir,
+        ..._reshape_pairs_ir, remove_identity_reshapes_ir, remove_orphan_transposes_ir (each preserves the COMMON
+        admissibility: its own theorems + frame lemmas for the annotations it does not model; the transpose-reduce fold
+        copies/clears the reducer's declared shape — the stale-annotation defect found here and repaired in /repo);
+        propagate_unary_shapes_ir (PropagateShapes.v, annotations only; true by C08's rule "same shape as the first input":
+        Annot.first_input_shape_ops / Annot.unary_dataflow_ops_same_shape reused); rewrite_mul_sigmoid_as_swish_ir
+        (SwishPass.v, from opset 24, with the observer conditions; hypothesis: Swish(x) = x * Sigmoid(x));
+        prune_unused_graph_inputs_ir (touches graph.inputs only: the identity on [ograph]; the interface side is C05).
+        What remains a hypothesis, exactly:
+          [unmodelled_ok U]  every function of UNMODELLED_RUNNERS (= the table minus the verified models, lemma
+                             OptimizePipeline.unmodelled_exact) refines and keeps the graph admissible: name_fix, CSE,
+                             lift_constants_to_initializers, rewrite_mul_rsqrt_as_div, inline_dropout_training_mode_constants,
+                             propagate_elementwise_shapes, remove_dead_nodes — and remove_redundant_casts_ir (both entries): it
+                             IS verified, but over typed tensors (CastPass.v, ttensor/tteq); this theorem is over [tensor A]/teq,
+                             and no embedding of ttensor into [tensor A] lets teq see the dtype of an EMPTY tensor;
+          [refresh_ok]       the declared dims the two Transpose fold passes leave behind
+                             (_refresh_elementwise_output_shape(rewired=True), not modelled by TransposePairPass.v) are true;
+          [kinds_ok_*]       boolean: every action of the Transpose-pair pass is of a proved kind (kinds_along);
+          [opt_world]        the union of the passes' semantic hypotheses (Transpose, Reshape, pointwise table operators with
+                             numpy broadcasting, CastLike, abstract ReduceMean with the permute/re-map law, integer vectors). *)
+From J2O Require Import OptGraph OptimizePipeline.
+Theorem C02_optimize_pipeline_sound :
+  forall (A : Type) sem F Fcl reduce denoteZ mkZ, opt_world A sem F Fcl reduce denoteZ mkZ ->
+  forall tshF tshT, refresh_ok A sem denoteZ addforest_step tshF -> refresh_ok A sem denoteZ transpose_pair_step tshT ->
+  forall fuel opset U, unmodelled_ok A sem denoteZ U ->
+  forall g e, kinds_ok_top tshF tshT fuel opset U g -> padm A sem denoteZ g e ->
+  forall o, run (tensor A) sem (o_graph g) e = Some o ->
+  exists e' o', pext A denoteZ (optimize_top tshF tshT fuel opset U g) e e' /\ padm A sem denoteZ (optimize_top tshF tshT fuel opset U g) e' /\
+                run (tensor A) sem (o_graph (optimize_top tshF tshT fuel opset U g)) e' = Some o' /\ Forall2 teq o o'.
+Proof. exact optimize_graph_sound. Qed.
+Print Assumptions C02_optimize_pipeline_sound.
+
+Theorem C02_optimize_pipeline_sound_function_bodies :
+  forall (A : Type) sem F Fcl reduce denoteZ mkZ, opt_world A sem F Fcl reduce denoteZ mkZ ->
+  forall tshF tshT, refresh_ok A sem denoteZ addforest_step tshF -> refresh_ok A sem denoteZ transpose_pair_step tshT ->
+  forall fuel opset U, unmodelled_ok A sem denoteZ U ->
+  forall g e, kinds_ok_body tshF tshT fuel opset U g -> padm A sem denoteZ g e ->
+  forall o, run (tensor A) sem (o_graph g) e = Some o ->
+  exists e' o', pext A denoteZ (optimize_body tshF tshT fuel opset U g) e e' /\ padm A sem denoteZ (optimize_body tshF tshT fuel opset U g) e' /\
+                run (tensor A) sem (o_graph (optimize_body tshF tshT fuel opset U g)) e' = Some o' /\ Forall2 teq o o'.
+Proof. exact optimize_graph_sound_function_bodies. Qed.
+Print Assumptions C02_optimize_pipeline_sound_function_bodies.
+
+(* the order the two theorems are about is the one of the source table *)
+Theorem C02_optimize_pipeline_order :
+  map fst GenOptPasses.OPTIMIZER_PASS_TABLE = OPTIMIZER_PASS_NAMES /\
+  top_runners = map (fun r => fst (snd r)) GenOptPasses.OPTIMIZER_PASS_TABLE /\
+  body_runners = map (fun r => fst (snd r)) (filter (fun r => snd (snd r)) GenOptPasses.OPTIMIZER_PASS_TABLE).
+Proof. exact (conj table_labels (conj eq_refl eq_refl)). Qed.
+Print Assumptions C02_optimize_pipeline_order.
